@@ -209,4 +209,11 @@ def run (H : Str → Str) (side : Side) (ex : List Str) : Input → Outcome
     | .raw => .parseError
     | _ => if e then .empty else .whole
 
+/-- One transaction through the flow-mode HAR collector (`harCollectorProcessor.generateHAR`): the
+    request body and then the response body are obfuscated by ONE `apiStreamObfuscator` built from one
+    exclusion list.  The obfuscator carries no state from the first body to the second: each body is
+    treated by `obfuscateBody` with the filter of its own side. -/
+def runTxn (H : Str → Str) (ex : List Str) (reqBody respBody : Input) : Outcome × Outcome :=
+  (run H .req ex reqBody, run H .resp ex respBody)
+
 end LunarVerif.C16
